@@ -1335,4 +1335,33 @@ theorem leBounds_length (ls is : List Nat) (h : leBounds ls is = true) : is.leng
       simp only [leBounds, Bool.and_eq_true] at h
       simp [ih is h.2]
 
+/-! ### tensor sources -/
+
+/-- a tensor source resolves every index inside its shape, and different indexes to different
+    cells (for a view: C02's `view_get_some_iff_inBounds` and `view_get_injective`) -/
+structure TSource.WellFormed {κ : Type} (src : TSource κ) : Prop where
+  resolves : ∀ idx, inBounds src.shape idx = true → ∃ c, src.cell idx = some c
+  injective : ∀ (p q : List Nat) (c : κ), inBounds src.shape p = true → inBounds src.shape q = true →
+    src.cell p = some c → src.cell q = some c → p = q
+
+theorem ofTensor_wellFormed {ν α : Type} [DecidableEq ν] (shape : Shape ν) (data : List α)
+    (t : Tensor ν α) (ht : Tensor.tryFrom shape data = some t) :
+    (TSource.ofTensor t).WellFormed := by
+  have hs : (TSource.ofTensor t).shape = shape.map (·.2) := by
+    unfold Tensor.tryFrom at ht
+    split at ht
+    · simp at ht
+    · simp only [Option.some.injEq] at ht; subst ht; rfl
+  constructor
+  · intro idx hb
+    rw [hs] at hb
+    exact ⟨_, (ofTensor_cell shape data t ht idx hb).1⟩
+  · intro p q c hp hq h1 h2
+    rw [hs] at hp hq
+    rw [(ofTensor_cell shape data t ht p hp).1] at h1
+    rw [(ofTensor_cell shape data t ht q hq).1] at h2
+    apply ravel_injective _ p q hp hq
+    simp only [Option.some.injEq] at h1 h2
+    omega
+
 end EasyMl.Iter
